@@ -68,6 +68,7 @@ func c01Prods(extra bool) []enum.Prod {
 		node("app1", 2, func(k []V) V { return model.List(k[0], k[1]) }),
 		node("app2", 3, func(k []V) V { return model.List(k[0], k[1], k[2]) }),
 		node("+", 2, func(k []V) V { return form("+", k[0], k[1]) }),
+		node("=", 2, func(k []V) V { return form("=", k[0], k[1]) }),
 		node("list1", 1, func(k []V) V { return form("list", k[0]) }),
 		node("list2", 2, func(k []V) V { return form("list", k[0], k[1]) }),
 	)
